@@ -1596,3 +1596,21 @@ mod test {
     }
 }
 
+
+
+//============ Verification hooks ============================================
+
+#[cfg(feature = "verif-hooks")]
+impl Store {
+    /// Forwards to the private `ta_path`.
+    pub fn verif_ta_path(&self, uri: &TalUri) -> PathBuf {
+        self.ta_path(uri)
+    }
+
+    /// Forwards to the private `Repository::point_path`.
+    pub fn verif_point_path(
+        &self, rpki_notify: Option<&uri::Https>, manifest_uri: &uri::Rsync
+    ) -> PathBuf {
+        Repository::new(self, rpki_notify.cloned()).point_path(manifest_uri)
+    }
+}
